@@ -64,8 +64,6 @@ for name, fn in sorted(_funcs.items()):
     sig = inspect.signature(fn)
     params = [p for p in sig.parameters.values()
               if p.kind in (p.POSITIONAL_ONLY, p.POSITIONAL_OR_KEYWORD) and not p.name.startswith('_')]
-    if name == 'VLOOKUP':
-        params = params[:3]
     for i, p in enumerate(params):
         inputs = []
         for j, q in enumerate(params):
